@@ -1249,3 +1249,11 @@ Lemma concat_insert_perm (bs : list (list nid)) x b b' :
 Proof.
   intros H. destruct (concat_split bs x b H) as (l1 & l2 & E1 & E2). exists l1, l2. auto.
 Qed.
+
+Lemma removeMin_spec w n w' :
+  hinv w -> Heap.removeMin w = Some (n, w') ->
+  hinv w' /\ Heap.ids w ≡ₚ n :: Heap.ids w' /\
+  forall m, Heap.hinOf w' m = if decide (m = n) then unset else Heap.hinOf w m.
+Proof.
+  intros I H. destruct (heap_removeMin_spec w n w' I H) as (_ & I' & P & Hin). auto.
+Qed.
